@@ -139,7 +139,9 @@ CONTENT = [
 # blocks put in front of the tag block (appended later): code blocks whose fences are legal but unusual; the tag block after
 # them must be treated exactly as without them
 PREAMBLE = [[], ["```", "x", "```", ""], ["```py", "x", "````", ""], ["~~~", "x", "~~~~~", ""], [" ```", " x", " ```", ""], ["````", "```", "````", ""],
-            ["    code", ""], ["<div>", "x", "</div>", ""], ["> ```", "> x", ""]]
+            ["    code", ""], ["<div>", "x", "</div>", ""], ["> ```", "> x", ""],
+            # appended later: a closing fence followed by spaces / a tab, an opening fence with trailing spaces
+            ["```", "x", "```   ", ""], ["~~~", "x", "~~~\t", ""], ["```py  ", "x", "```", ""]]
 
 
 class TagBlocks(Space):
